@@ -151,7 +151,7 @@ def run_property(prop, tier, seed, only=None, jobs=None, verbose=False, list_onl
         for n in done:
             running.pop(n)
             if verbose:
-                r = results[-1]
+                r = next(x for x in reversed(results) if x.get("name") == n)
                 print(f"  [{r['verdict']:12s}] {r.get('name')}  {r.get('wall_s', 0)}s", flush=True)
         if not done:
             time.sleep(0.05)
